@@ -29,7 +29,7 @@ PROBES = ['rerun_same_controller', 'split_same_controller', 'split_fresh_control
 
 def plan(tier):
     if tier == 'thorough':
-        return {'n': 60000, 'chunk': 60, 'timeout': 600, 'selftest': 30, 'budget_s': 7200, 'minimize_s': 300}
+        return {'n': 60000, 'chunk': 60, 'timeout': 600, 'selftest': 30, 'budget_s': 3000, 'minimize_s': 300}
     return {'n': 400, 'chunk': 10, 'timeout': 600, 'selftest': 8, 'budget_s': 900, 'minimize_s': 120}
 
 
